@@ -1365,6 +1365,41 @@ def view_writes(fnode, root_attrs=("img", "rmsimg", "bkgimg", "dcurve")):
     return out
 
 
+def expand_locals(fnode, expr, depth=4):
+    """a copy of expr in which every local name bound exactly once in fnode
+    (by a plain assignment) is replaced by its defining expression,
+    transitively -- for rules that ask what a value is MADE OF (does a true
+    division feed this int()?), not for rules about evaluation order"""
+    import copy
+    defs = {}
+    for st in walk_no_nested(fnode):
+        if isinstance(st, ast.Assign) and len(st.targets) == 1 and \
+                isinstance(st.targets[0], ast.Name):
+            defs.setdefault(st.targets[0].id, []).append(st.value)
+        elif isinstance(st, (ast.AugAssign, ast.For, ast.AnnAssign)):
+            for x in ast.walk(st.target):
+                if isinstance(x, ast.Name):
+                    defs.setdefault(x.id, []).extend([None, None])
+        elif isinstance(st, ast.Assign):
+            for t in st.targets:
+                for x in ast.walk(t):
+                    if isinstance(x, ast.Name) and \
+                            isinstance(x.ctx, ast.Store):
+                        defs.setdefault(x.id, []).extend([None, None])
+
+    class T(ast.NodeTransformer):
+        def __init__(self, d):
+            self.d = d
+
+        def visit_Name(self, n):
+            if isinstance(n.ctx, ast.Load) and self.d > 0 and \
+                    len(defs.get(n.id, [])) == 1 and \
+                    defs[n.id][0] is not None:
+                return T(self.d - 1).visit(copy.deepcopy(defs[n.id][0]))
+            return n
+    return ast.fix_missing_locations(T(depth).visit(copy.deepcopy(expr)))
+
+
 def as_update(stmt):
     """(target text, operator class, operand text) of  t op= v  or of the
     equivalent  t = t op v  (also  t = v op t  for + and *); else None"""
